@@ -412,3 +412,17 @@ def c05_16(ctx, r):
         r.findings.append(f2)
     if out.verdict == "UNKNOWN":
         raise AnalysisError("C05.16", out.error or "command sweep failed")
+
+
+@rule(P, "C05.17", "T8", "every recorded active batch is its own queue entry at the start of a round (none drops out of the persisted list while it runs)", min_obligations=6)
+def c05_17(ctx, r):
+    from .c06 import c06_5
+
+    c06_5(ctx, r)
+
+
+@rule(P, "C05.18", "T7+T2", "a refused promotion changes nothing on disk (the active submitter's round is not invalidated)", min_obligations=4)
+def c05_18(ctx, r):
+    from .c10 import c10_2
+
+    c10_2(ctx, r)
